@@ -9,6 +9,7 @@ import FlacModel.Spec.Rfc
 import FlacModel.Model.Readers
 import FlacModel.Model.Writers
 import FlacModel.Model.ByteFront
+import FlacModel.Model.FixedPick
 import FlacModel.Model.Md5
 import FlacModel.Model.Finalize
 import Driver.Gen
@@ -162,6 +163,23 @@ def opEncframe (f : Fields) (impl : Fields) (implHead : String) (profile : Profi
           | .fixed _ _ r => zeroRes r || small q.1 q.2
           | .lpc _ _ _ _ _ r => zeroRes r || small q.1 q.2
         if (List.zip pr.frame.subs (List.range pr.frame.subs.length)).all okSub then "ok" else "FAIL constant-block-subframe-grows-with-length"
+    -- a mono frame written as a FIXED subframe is the output of `encode_fixed_subframe`: its order and residuals must be the
+    -- ones `Model/FixedPick.lean` (`fixedPick`, the subject of `C19.constant_block_fixed_zero`) computes from the wasted-bit-shifted channel
+    let verdict := if verdict != "ok" || ch != 1 then verdict else
+      match parseFrame decLayout true none bytes with
+      | .error _ => verdict
+      | .ok pr =>
+        match pr.frame.subs with
+        | [sub] =>
+          (match sub.body with
+           | .fixed o _ r =>
+             let vals := r.parts.flatMap fun pt => match pt with
+               | .rice _ rs => rs | .escaped _ rs => rs | .zero n => List.replicate n 0
+             let pick := fixedPick (pcm.map fun x => x / (2 : Int) ^ sub.wasted)
+             if pick.1 == o && pick.2 == vals then "ok"
+             else s!"FAIL fixed-subframe-not-as-modelled order={o} modelled={pick.1}"
+           | _ => verdict)
+        | _ => verdict
     -- the crate-decoder model on the same bytes (ties Model/Decode to the spec on real output)
     let m := match decodeFrame profile none bytes with
       | .ok d => s!"ok dec={joinInts (interleave d.channels)}"
